@@ -11,8 +11,8 @@ Driver for C15.  Requests:
 
 `<fs>` = nine characters (docs docs.del sdocs _sdocs sdocs.del index _index index.del meta), `a`bsent `e`mpty `t`orn `h`oled
 `f`ull; in `life` answers only what a directory listing shows is printed: `a`bsent, `e`mpty, `f` = not empty.
-`<events>` = `;`-separated `new | fill | seal | asuicide | ssuicide | start`, each optionally `@k` = the process dies after
-`k` operations of the procedure.  Sealing uses the extracted generator facts, no write fault and one sorted-docs write.
+`<events>` = `;`-separated `new | fill | seal | asuicide | ssuicide | suicide | start`, each optionally `@k` = the process dies after
+`k` operations of the procedure (if it has at least `k`).  Sealing uses the extracted generator facts, no write fault and one sorted-docs write.
 -/
 open SV SV.Proto SV.FileSet SV.SealOps SV.Lifecycle
 
@@ -68,14 +68,21 @@ def lifeGo (c : Cfg) : List String → Nat → Role → FileSet → List String 
   | [], _, _, fs, acc => "ok " ++ fmtList id acc.reverse ";" ++ " served=" ++ fmtServed (served orphanFatal fs)
   | ev :: rest, i, r, fs, acc =>
     let parts := ev.splitOn "@"
-    match proc? (parts.headD ""), (parts.drop 1).head?.map String.toNat? with
+    -- `suicide` = what a retention pass does to the fraction: `Active.Suicide` or `Sealed.Suicide` by the role held
+    let name := if parts.headD "" = "suicide" then (if r = .sealed then "ssuicide" else "asuicide") else parts.headD ""
+    match proc? name, (parts.drop 1).head?.map String.toNat? with
     | some p, k =>
       if !(enabledB r fs p) then s!"err not-enabled {i}" else
       let ops := p.ops c srcFacts orphanFatal fs
       match k with
       | some (some k) =>
-        let fs' := run (ops.take k) fs
-        lifeGo c rest (i + 1) .crashed fs' (s!"crashed:{(fmtFs fs').map listingChar}" :: acc)
+        if k ≤ ops.length then
+          let fs' := run (ops.take k) fs
+          lifeGo c rest (i + 1) .crashed fs' (s!"crashed:{(fmtFs fs').map listingChar}" :: acc)
+        else   -- the procedure has fewer than k operations: it runs to its end
+          let fs' := run ops fs
+          let r' := p.roleAfter c srcFacts orphanFatal fs
+          lifeGo c rest (i + 1) r' fs' (s!"{fmtRole r'}:{(fmtFs fs').map listingChar}" :: acc)
       | some none => "bad-op"
       | none =>
         let fs' := run ops fs
